@@ -242,7 +242,7 @@ def _needs_from_notes(d):
 def main():
     os.makedirs(DST, exist_ok=True)
     n = 0
-    for cj in sorted(glob.glob(os.path.join(SRC, "C*", "*", "confirm.json")) + glob.glob(os.path.join("/tmp/mutout2", "C*", "*", "confirm.json")) + glob.glob(os.path.join("/tmp/mutout3", "C*", "*", "confirm.json")) + glob.glob(os.path.join("/tmp/mutout4", "C*", "*", "confirm.json")) + glob.glob(os.path.join("/tmp/mutout5", "C*", "*", "confirm.json")) + glob.glob(os.path.join("/tmp/mutout6", "C*", "*", "confirm.json"))):
+    for cj in sorted(glob.glob(os.path.join(SRC, "C*", "*", "confirm.json")) + glob.glob(os.path.join("/tmp/mutout2", "C*", "*", "confirm.json")) + glob.glob(os.path.join("/tmp/mutout3", "C*", "*", "confirm.json")) + glob.glob(os.path.join("/tmp/mutout4", "C*", "*", "confirm.json")) + glob.glob(os.path.join("/tmp/mutout5", "C*", "*", "confirm.json")) + glob.glob(os.path.join("/tmp/mutout6", "C*", "*", "confirm.json")) + glob.glob(os.path.join("/tmp/mutout7", "C*", "*", "confirm.json"))):
         d = os.path.dirname(cj)
         c = json.load(open(cj))
         sid = c["id"]
@@ -265,7 +265,7 @@ def main():
             "breaks_property": sid.split("-")[0],
             "files_changed": files,
             "needs_to_manifest": NEEDS.get(sid, old.get("needs_to_manifest") or _needs_from_notes(d)),
-            "round": 6 if "-r6-" in sid else 5 if "-r5-" in sid else 4 if "-r4-" in sid else (3 if "-r3-" in sid else (2 if "-r2-" in sid else 1)),
+            "round": 7 if "-r7-" in sid else 6 if "-r6-" in sid else 5 if "-r5-" in sid else 4 if "-r4-" in sid else (3 if "-r3-" in sid else (2 if "-r2-" in sid else 1)),
             "demonstration": demos,
             "confirmed_by_me": {
                 "how": "tools/confirm_seed.sh on a scratch git worktree of /repo at %s (removed afterwards): git apply patch.diff; cargo build --workspace; "
